@@ -539,7 +539,16 @@ fn gen_result(rng: &mut Rng, status_override: Option<u16>, expect: ExpectJob) ->
         };
         headers.push(HttpHeader {
             name,
-            value: ascii_value(rng),
+            value: {
+                let v = ascii_value(rng);
+                // what the shell hands over is what the app gets, blanks and tabs at the ends included
+                match rng.below(12) {
+                    0 => format!(" {v}"),
+                    1 => format!("{v}\t "),
+                    2 => "  ".into(),
+                    _ => v,
+                }
+            },
         });
     }
     if let Some(ct) = ct {
@@ -1123,7 +1132,8 @@ mod caplab_c16 {
                 expect: ExpectJob::Bytes,
                 client_mw: client_mw.clone(),
                 request_mw: request_mw.clone(),
-                send_async: false,
+                // the capability API's async route (`send_async` / awaiting the builder) too
+                send_async: api == Api::Legacy && rng.chance(1, 3),
             };
             let graph = if redirect_case { gen_graph(&mut rng, &start) } else { Graph { nodes: BTreeMap::new() } };
             let replay = json!({"lane": "httplab-c16", "shell": sname, "api": format!("{api:?}"), "job": job, "graph": graph.nodes.iter().map(|(k, v)| (k.clone(), format!("{v:?}"))).collect::<Vec<_>>()});
